@@ -10,6 +10,7 @@ mod surface;
 mod sub;
 mod store;
 mod util;
+mod wslock;
 
 use std::path::PathBuf;
 
@@ -43,6 +44,7 @@ fn main() {
         "pathguard" => fsops::engine_pathguard(&rt, cases, &mut out),
         "ckpt" => fsops::engine_ckpt(&rt, cases, &mut out),
         "surface" => surface::engine_surface(cases, &mut out),
+        "wslock" => wslock::engine_wslock(&rt, cases, &mut out),
         "runs" => {
             for case in cases {
                 let r = rt.block_on(async { runs::run_scripted(&case, false).await });
